@@ -32,7 +32,7 @@ Theorem C12_relative :
   forall (H : bytes -> Z) st offs c,
   opened st = Some c -> cro c = false -> offs <> [] -> zmin_list offs < 0 ->
   log_delete H st offs = Err EDeleteRelative /\ classify EDeleteRelative = CInvalidOffset.
-Proof. intros. split; [now apply log_delete_relative|reflexivity]. Qed.
+Proof. intros H st offs c Hc Hro Hne Hmin. split; [now apply (log_delete_relative H st offs c)|reflexivity]. Qed.
 Print Assumptions C12_relative.
 
 (* the empty set is a no-op *)
